@@ -1,7 +1,8 @@
 (* C01 - angles stay canonical and core operations stay total.  Pinned theorems only. *)
 From Coq Require Import ZArith List Bool Reals Lra.
 From Flocq Require Import Core BinarySingleNaN.
-Require Import GV.FloatBase GV.FloatLemmas GV.AngleM GV.AngleProofs GV.GeonumM GV.GeonumProofs GV.NewProofs GV.CtorProofs GV.ClosureProofs.
+Require Import GV.FloatBase GV.FloatLemmas GV.AngleM GV.AngleProofs GV.GeonumM GV.GeonumProofs GV.NewProofs GV.CtorProofs GV.ClosureProofs GV.CollM GV.TraitsM GV.Interp GV.ProgClosure.
+Import ListNotations.
 Open Scope R_scope.
 
 (* Canon a : finite remainder with 0 <= rem <= q - 1e-10 (q the double nearest pi/2), blade >= 0 *)
@@ -90,3 +91,24 @@ Theorem C01_geonum_closed_add : forall (L : libm) g h, CanonG g -> CanonG h -> (
   CanonG (gadd_vv L g h).
 Proof. exact closure_gadd. Qed.
 Print Assumptions C01_geonum_closed_add.
+
+(* WHOLE PROGRAMS: starting from ANY register file of canonical values, every register written by ANY program
+   over the closed operation set (closed_op: 79 opcodes of the op language shared with the correspondence
+   harness - angle and geonum arithmetic in all spellings, step operators, products, quotients, reflection,
+   wedge, distance, collections incl. sort) is canonical, for every libm: induction over the instruction
+   list with data flow through registers *)
+Theorem C01_program_closed : forall (L : libm) (p : prog) rs, Forall okv rs ->
+  forallb (fun i => closed_op (fst i)) p = true ->
+  Forall okv (fold_left (fun rs i => rs ++ [step L rs i]) p rs).
+Proof. exact run_from_closed. Qed.
+Print Assumptions C01_program_closed.
+
+Theorem C01_program_closed_run : forall (L : libm) (p : prog),
+  forallb (fun i => closed_op (fst i)) p = true -> Forall okv (run L p).
+Proof. exact program_closed. Qed.
+Print Assumptions C01_program_closed_run.
+
+Theorem C01_okv_def : forall v, okv v = match v with VA a => Canon a | VG g => CanonG g | VC l => Forall CanonG l
+                                        | VOG (Some g) => CanonG g | _ => True end.
+Proof. reflexivity. Qed.
+Print Assumptions C01_okv_def.
